@@ -54,7 +54,11 @@ class GenericResolver(Generic[K, M]):
 
     def _unpack_args(self, args):
         if HAS_UNPACK and any(strip_alias(arg) == typing.Unpack or getattr(arg, "__unpacked__", False) for arg in args):
-            return tuple(arg.source for arg in normalize_type(tuple[args]).args)
+            norm_args = normalize_type(tuple[args]).args
+            if Ellipsis in norm_args:
+                # ``tuple[*tuple[X, ...]]`` is normalized to ``tuple[X, ...]``, the unpacked form itself is the argument
+                return args
+            return tuple(arg.source for arg in norm_args)
         return args
 
     def _get_type_var_to_actual(self, type_vars, args):
